@@ -16,18 +16,21 @@ use tokio::sync::mpsc::channel;
 use tokio_util::codec::{Framed, LengthDelimitedCodec};
 
 const CFG_LEN: usize = 8;
+/// gap marker: deliver the transaction exactly when the seal timer expires next
+const ALIGN_TO_TICK: u64 = u64::MAX;
 
 pub fn c11_def() -> PropDef {
     PropDef {
         id: "C11",
         level: "exploration",
-        rule: "proptest cfg (committee 4..6, batch_size 1..4000 with small values emphasised, max_batch_delay 1..200 ms, scheduler seed) + tape -> the real Mempool::spawn on the in-memory transport with peers that acknowledge at once; 1..3 client connections submit 1..40 transactions with sizes from {0,1,3,8,9,B-1,B,B+1,2B,5B,random}, first byte 0 or not, inter-arrival gaps around the seal timer (0, <delay, =delay, >delay); peers' batches (also with trailing bytes after a valid encoding) are sent to its mempool port; run in the default build and in the build with the benchmark feature. Oracle: every peer receives the same sequence of batch frames; the multiset of transactions in all batches equals the multiset submitted and each client's identifiable transactions keep their order; size rule (the batch without its last transaction is below batch_size; a batch reaching batch_size is emitted in the instant its last transaction was delivered); timer rule (no transaction waits longer than max_batch_delay); every own and received batch is stored under, and announced to consensus as, SHA-512/256 of its exact frame bytes. Non-trivial: >= 2 batches with both seal triggers, or an empty transaction, or a transaction >= batch_size; distinct by (parameters, size/gap sequence) hash.",
+        rule: "proptest cfg (committee 4..6, batch_size 1..4000 with small values emphasised, max_batch_delay 1..200 ms, scheduler seed) + tape -> the real Mempool::spawn on the in-memory transport with peers that acknowledge at once; 1..3 client connections submit 1..40 transactions with sizes from {0,1,3,8,9,B-1,B,B+1,2B,5B,random}, first byte 0 or not, inter-arrival gaps around the seal timer (0, <delay, =delay, >delay, and arrival exactly in the instant the timer expires next); peers' batches (also with trailing bytes after a valid encoding) are sent to its mempool port; run in the default build and in the build with the benchmark feature. Oracle: every peer receives the same sequence of batch frames; the multiset of transactions in all batches equals the multiset submitted and each client's identifiable transactions keep their order; size rule (the batch without its last transaction is below batch_size; a batch reaching batch_size is emitted in the instant its last transaction was delivered); timer rule (no transaction waits longer than max_batch_delay); every own and received batch is stored under, and announced to consensus as, SHA-512/256 of its exact frame bytes. (realtime-burst) the same component on the real clock: 8..32 client connections flood tiny transactions while a 1..3 ms seal timer keeps expiring, so that transactions are taken from the channel in the very poll in which the timer fires (virtual time cannot produce this: its clock only advances when every task is idle); oracle: nothing lost, duplicated or reordered per client. Non-trivial: >= 2 batches with both seal triggers, or an empty transaction, or a transaction >= batch_size; distinct by (parameters, size/gap sequence) hash.",
         assumptions: &[
             "a transaction delivered exactly on a timer tick may go into either batch (both accepted)",
             "peers acknowledge immediately (acknowledgement patterns are C12's domain)",
         ],
         parts: vec![
             Part { name: "batching", cfg_len: CFG_LEN, tape_max: 200, quick: 20_000, thorough: 500_000, max_shrink_iters: 300, run: c11_run },
+            Part { name: "realtime-burst", cfg_len: 2, tape_max: 40, quick: 96, thorough: 2_000, max_shrink_iters: 4, run: c11_realtime },
         ],
     }
 }
@@ -182,7 +185,26 @@ fn run_mempool(w: &World, sut: usize, batch_size: usize, max_batch_delay: u64, r
         let mut clients: HashMap<usize, Framed<TcpStream, LengthDelimitedCodec>> = HashMap::new();
         let mut peer_conns: HashMap<usize, Framed<TcpStream, LengthDelimitedCodec>> = HashMap::new();
         for (i, (client, bytes, gap)) in txs.iter().enumerate() {
-            if *gap > 0 {
+            if *gap == ALIGN_TO_TICK {
+                // arrive exactly on the next expiry of the seal timer: it was last re-armed when the
+                // node wrote its latest batch frame (or when it started)
+                let now = sim::now_us();
+                let last_seal = sim::with_log(|l| {
+                    l.iter()
+                        .rev()
+                        .find_map(|e| match &e.ev {
+                            Ev::Sent { info, bytes, .. } if info.writer_node == sut_id && info.forward && port_kind(info.dst_port) == PortKind::Mempool && decode_batch(bytes).is_some() => Some(e.t_us),
+                            _ => None,
+                        })
+                        .unwrap_or(0)
+                });
+                let d = max_batch_delay * 1000;
+                let mut tick = last_seal + d;
+                while tick < now + 1_000 {
+                    tick += d;
+                }
+                tokio::time::sleep(us(tick - 1_000 - now)).await;
+            } else if *gap > 0 {
                 tokio::time::sleep(us(*gap)).await;
             }
             if !clients.contains_key(client) {
@@ -311,14 +333,15 @@ fn c11_run(case: &Case, _ctx: &Ctx) -> Outcome {
         if len >= b {
             has_big = true;
         }
-        let gap_us = match t.weighted(&[4, 3, 1, 1, 1]) {
+        let gap_us = match t.weighted(&[4, 3, 1, 1, 1, 3]) {
             0 => 0,
             1 => t.range(1, delay * 1000 / 2),
             2 => delay * 1000,
             3 => delay * 1000 + t.range(1, 3000),
-            _ => delay * 1000 - t.range(0, 1).min(delay * 1000),
+            4 => delay * 1000 - t.range(0, 1).min(delay * 1000),
+            _ => ALIGN_TO_TICK,
         };
-        script.push(json!({"client": client, "len": len, "first": first, "gap_us": gap_us}));
+        script.push(json!({"client": client, "len": len, "first": first, "gap_us": if gap_us == ALIGN_TO_TICK { json!("exactly-on-next-timer-expiry") } else { json!(gap_us) }}));
         txs.push((client, tx, gap_us));
     }
     // batches received from peers, some with trailing bytes after a valid encoding
@@ -672,5 +695,133 @@ fn c12_run(case: &Case, _ctx: &Ctx) -> Outcome {
     }
     out.class(&format!("stakes={}", match cfg_range(&case.cfg, 1, 0, 4) { 0 => "equal", 1 => "skewed", 2 => "dominant-peer", 3 => "dominant-node", _ => "mixed" }));
     out.nontrivial = withheld || never_released;
+    out
+}
+
+
+/// C11 on the real clock: many client connections flood tiny transactions while the seal timer
+/// (1..3 ms) keeps expiring, so that a transaction is regularly being taken from the channel in the
+/// very poll in which the timer fires - an interleaving virtual time cannot produce, because there
+/// the clock only advances when every task is idle. Oracle: nothing lost, duplicated or reordered
+/// per client (no timing clauses on the real clock).
+fn c11_realtime(case: &Case, _ctx: &Ctx) -> Outcome {
+    let mut t = Tape::new(&case.tape);
+    let n = 4usize;
+    let w = World::new(&vec![1u32; n], 0);
+    let sut = 0usize;
+    let sut_id = 1u32;
+    let delay = 1 + t.below(3) as u64;
+    let nclients = 8 + t.below(24);
+    let per_client = 20 + t.below(60);
+    let pause_us = 50 + t.below(400) as u64;
+    let dir = sim::scratch_dir("mprt");
+    let _g = sim::ScratchGuard(dir.clone());
+    let received: Arc<Mutex<Vec<Vec<u8>>>> = Arc::new(Mutex::new(Vec::new()));
+    let rec = received.clone();
+    let total = nclients * per_client;
+    let w2 = &w;
+    let got_all = sim::run_sim_realtime(case.cfg.first().copied().unwrap_or(0) as u64, || async move {
+        simnet::install(Box::new(RigPolicy {
+            on_connect: Box::new(|_, _| ConnectDecision::Accept(us(0))),
+            on_frame: Box::new(|_, _| FrameDecision::Deliver(us(0))),
+            on_delivered: None,
+        }));
+        sim::set_logging(false);
+        for p in 1..n {
+            let listener = TcpListener::bind(&addr(MEMPOOL_PORT + p as u16)).await.expect("bind peer");
+            let rec = rec.clone();
+            tokio::spawn(async move {
+                loop {
+                    let (socket, _) = match listener.accept().await {
+                        Ok(x) => x,
+                        Err(_) => continue,
+                    };
+                    let rec = rec.clone();
+                    tokio::spawn(async move {
+                        let mut framed = Framed::new(socket, LengthDelimitedCodec::new());
+                        while let Some(Ok(frame)) = framed.next().await {
+                            if p == 1 {
+                                if let Some(txs) = decode_batch(&frame) {
+                                    rec.lock().unwrap().extend(txs);
+                                }
+                            }
+                            if framed.send(Bytes::from("Ack")).await.is_err() {
+                                break;
+                            }
+                        }
+                    });
+                }
+            });
+        }
+        simnet::set_current_node(sut_id);
+        let store = Store::new(&format!("{}/db", dir)).expect("store");
+        let (_tx_c2m, rx_c2m) = channel(1000);
+        let (tx_m2c, mut rx_m2c) = channel(10_000);
+        Mempool::spawn(w2.pk(sut), w2.mcom.clone(), Parameters { gc_depth: 50, sync_retry_delay: 5_000, sync_retry_nodes: 3, batch_size: 1_000_000, max_batch_delay: delay }, store, rx_c2m, tx_m2c);
+        simnet::set_current_node(0);
+        tokio::spawn(async move { while rx_m2c.recv().await.is_some() {} });
+        tokio::time::sleep(ms(5)).await;
+        let mut clients = Vec::new();
+        for c in 0..nclients {
+            clients.push(tokio::spawn(async move {
+                let s = match TcpStream::connect(addr(TX_PORT + sut as u16)).await {
+                    Ok(s) => s,
+                    Err(_) => return,
+                };
+                let mut f = Framed::new(s, LengthDelimitedCodec::new());
+                for k in 0..per_client {
+                    let mut tx = vec![1u8, 0xC1, c as u8, 0, 0, 7, 7, 7];
+                    tx[3..5].copy_from_slice(&(k as u16).to_be_bytes());
+                    if f.send(Bytes::from(tx)).await.is_err() {
+                        return;
+                    }
+                    tokio::time::sleep(us(pause_us + (c as u64 * 37 + k as u64 * 11) % 200)).await;
+                }
+                // keep the connection open until the end of the case
+                tokio::time::sleep(ms(60_000)).await;
+            }));
+        }
+        // wait (real time) until everything came out, at most 15 s
+        let t0 = std::time::Instant::now();
+        loop {
+            tokio::time::sleep(ms(20)).await;
+            let have = rec.lock().unwrap().len();
+            if have >= total {
+                // a little longer, to catch duplicates
+                tokio::time::sleep(ms(20)).await;
+                return true;
+            }
+            if t0.elapsed().as_secs() >= 15 {
+                return false;
+            }
+        }
+    });
+    let got = received.lock().unwrap().clone();
+    let mut out = Outcome::default();
+    let hist = json!({"clients": nclients, "per_client": per_client, "max_batch_delay_ms": delay, "pause_us": pause_us, "submitted": total, "received": got.len()});
+    let mut seen: HashMap<(u8, u16), u32> = HashMap::new();
+    let mut last: HashMap<u8, i32> = HashMap::new();
+    for tx in &got {
+        if tx.len() >= 5 {
+            let (c, k) = (tx[2], u16::from_be_bytes([tx[3], tx[4]]));
+            *seen.entry((c, k)).or_insert(0) += 1;
+            let prev = last.get(&c).copied().unwrap_or(-1);
+            if (k as i32) < prev {
+                out.violate("client-order-not-preserved", format!("client {}: transaction #{} after #{}", c, k, prev), hist.clone());
+                break;
+            }
+            last.insert(c, k as i32);
+        }
+    }
+    if seen.values().any(|v| *v > 1) {
+        out.violate("transaction-duplicated-or-invented", "a transaction appears in more than one batch".into(), hist.clone());
+    }
+    if !got_all || seen.len() < total {
+        out.violate("transaction-lost", format!("{} of {} submitted transactions never appeared in a batch within 15 s", total - seen.len().min(total), total), hist.clone());
+    }
+    out.class("real-clock-burst");
+    out.nontrivial = true;
+    out.fingerprint = fnv(format!("{}|{}|{}|{}|{:?}", nclients, per_client, delay, pause_us, case.cfg).as_bytes());
+    out.sample = hist;
     out
 }
